@@ -174,8 +174,6 @@ def run(ctx):
             r.record(label, rreq, iread, mread)
             if "fm" in holder:
                 for fail in fmt.graph_wf(holder["fm"]):
-                    if fail[0] == "relation:empty" and label != "hand":
-                        continue
                     r.oracle_fail(label, rreq, "graph:" + fail[0], fail[1])
     finally:
         sc.close()
